@@ -31,7 +31,7 @@ import (
 )
 
 const (
-	wait       = 2 * time.Second
+	wait       = 10 * time.Second
 	serverVers = "1.2.3"
 )
 
@@ -66,6 +66,7 @@ type stepper struct {
 	baseline  int64
 	sockdir   string
 	cancel    context.CancelFunc
+	panicked  string
 }
 
 var leakRe = regexp.MustCompile(`outstanding=(-?\d+)`)
@@ -114,9 +115,15 @@ func (s *stepper) Begin(b replay.Behaviour, rng *rand.Rand) error {
 		s.cw, s.cr = cw, cr
 		s.closers = []io.Closer{sr, sw}
 		go func() {
+			defer func() {
+				// a panic escaping the serve loop would kill a real server process
+				if r := recover(); r != nil {
+					s.panicked = fmt.Sprintf("panic escaped Serve: %v", r)
+				}
+				close(s.done)
+				sw.Close()
+			}()
 			s.srv.ServeWithContext(context.Background(), sr, sw)
-			close(s.done)
-			sw.Close()
 		}()
 	case "unix", "tcp":
 		var ln net.Listener
@@ -140,9 +147,14 @@ func (s *stepper) Begin(b replay.Behaviour, rng *rand.Rand) error {
 				close(s.done)
 				return
 			}
+			defer func() {
+				if r := recover(); r != nil {
+					s.panicked = fmt.Sprintf("panic escaped Serve: %v", r)
+				}
+				close(s.done)
+				c.Close()
+			}()
 			s.srv.ServeWithContext(context.Background(), c, c)
-			close(s.done)
-			c.Close()
 		}()
 		c, err := net.Dial(ln.Addr().Network(), ln.Addr().String())
 		if err != nil {
@@ -548,6 +560,9 @@ func (s *stepper) Step(i int, st replay.Step) (replay.Obs, error) {
 	select {
 	case <-s.done:
 		obs["survived"] = false
+		if s.panicked != "" {
+			obs["__note__"] = s.panicked
+		}
 	default:
 		obs["survived"] = true
 	}
